@@ -24,14 +24,36 @@ fn main() {
             }
         }
     }
-    let mut level = 4usize; // tower-lsp 0.20 default max_concurrency
-    if let Some(p) = src.find(".concurrency_level(") {
-        let rest = &src[p + ".concurrency_level(".len()..];
-        if let Some(end) = rest.find(')') {
-            if let Ok(n) = rest[..end].trim().parse::<usize>() {
-                level = n;
+    // tower-lsp 0.20's default max_concurrency is 4.  main.rs builds a `Server` per transport;
+    // simulate the most concurrent of them (a `Server::new(..)` without `.concurrency_level(n)`
+    // before its `.serve(` counts as 4).
+    let mut level = 0usize;
+    let mut rest = src.as_str();
+    let mut servers = 0;
+    while let Some(p) = rest.find("Server::new(") {
+        servers += 1;
+        let tail = &rest[p..];
+        let end = tail.find(".serve(").unwrap_or(tail.len());
+        let chain = &tail[..end];
+        let mut l = 4usize;
+        if let Some(q) = chain.find(".concurrency_level(") {
+            let r = &chain[q + ".concurrency_level(".len()..];
+            if let Some(e) = r.find(')') {
+                if let Ok(n) = r[..e].trim().parse::<usize>() {
+                    l = n;
+                } else {
+                    l = 4; // not a literal: assume the default
+                }
             }
         }
+        level = level.max(l);
+        rest = &tail[end.min(tail.len())..];
+        if end == tail.len() {
+            break;
+        }
+    }
+    if servers == 0 || level == 0 {
+        level = 4;
     }
     out.push_str(&format!("pub const LS_CONCURRENCY_LEVEL: usize = {level};\n"));
     let dst = PathBuf::from(env::var("OUT_DIR").unwrap()).join("ls_mods.rs");
